@@ -644,6 +644,9 @@ pub fn part_c11_attach(tier: Tier) -> Part {
                     part.violate(format!("C11:attach:{term}:hardware-breakpoint-left"), format!("[{name}] task {} has DR7 {:#x} after {term}", t["tid"], t["dr7"].as_u64().unwrap_or(0)), replay.clone());
                 }
             }
+            if chk["foreign_text_diff"].as_array().map(|d| !d.is_empty()).unwrap_or(false) {
+                part.violate(format!("C11:attach:{term}:code-patched-in-another-object"), format!("[{name}] the released process still carries patches outside the executable: {}", chk["foreign_text_diff"]), replay.clone());
+            }
             if chk["text_diff"].as_array().map(|d| !d.is_empty()).unwrap_or(false) {
                 part.violate(format!("C11:attach:{term}:code-patched"), format!("[{name}] text differs from the file at {}", chk["text_diff"]), replay.clone());
             }
